@@ -83,6 +83,7 @@ def gen_record(rng):
     # (also one that is valid only up to a point), the name of a variable
     maybe("pat", lambda: rng.choice(REGEXES), 0.35)
     maybe("fmt", lambda: rng.choice(FORMATS + ["%Y-%Q", "%H:%M:%", "%F %T %!"]), 0.35)
+    maybe("zfmt", lambda: rng.choice(["%F %T %z", "%Y-%m-%d %H:%M:%S %z", "%d/%m/%Y %z", "%F %z", "%FT%T%z", "%Y-%m-%d %T %z"]), 0.4)
     maybe("which", lambda: rng.choice(VARNAMES), 0.35)
     maybe("sel", lambda: rng.choice([".n", "(+ .i 1)", ".s", "(size .arr)", ".obj.a", "(concat .s \"!\")", ".", "(first .strs)", "(* .n 2)",
                                      # a selection text that parses a further selection text, also taken from the record
@@ -207,6 +208,8 @@ class Gen:
             return ("lit", r.choice(REGEXES))
         if kind == "fmt":
             return ("lit", r.choice(FORMATS))
+        if kind == "zfmt":
+            return ("lit", r.choice(("%F %T %z", "%d/%m/%Y %z", "%FT%T%z")))
         return ("lit", r.choice((None, True, 0, 1, "a", [1], {"a": 1}, 2.5, "é")))
 
     def path_for(self, kind, sc):
@@ -335,6 +338,10 @@ class Gen:
             add("parse_time_with_zone", lambda g, sc, d: C("parse_time_with_zone", g("str") if r.random() < 0.2 else
                                                            C("concat", C("format_time", g("epoch"), ("lit", "%F %T")), ("lit", r.choice((" +0000", " +0530", " -0800")))),
                                                            ("lit", "%F %T %z")))
+            # the format comes from the record, with a fallback: it is the record's format that counts when there is one
+            add("parse_time_with_zone", lambda g, sc, d: C("parse_time_with_zone",
+                                                           C("concat", C("format_time", g("epoch"), ("lit", "%F %T")), ("lit", r.choice((" +0000", " +0530", " -0800")))),
+                                                           self.lit_or_field("zfmt", "zfmt", sc)))
         if kind in ("str", "any"):
             add("concat", lambda g, sc, d: C("concat", *[g("str") for _ in range(r.choice((2, 2, 3, 4, 7)))]))
             add("head", lambda g, sc, d: C(r.choice(("head", "tail")), g("str"), g("int")))
@@ -343,7 +350,9 @@ class Gen:
             add("join", lambda g, sc, d: C("join", g("arr:str"), *([g("str")] if r.random() < 0.5 else [])))
             add("stringify", lambda g, sc, d: C("stringify", g("any")))
             add("env", lambda g, sc, d: C("env", ("lit", r.choice(ENVNAMES))))
-            add("base63_decode", lambda g, sc, d: C("base63_decode", ("lit", r.choice(("aGVsbG8=", "w6k=", "", "!!!", "aGVsbG8", "/w==", "YQ==")))))
+            add("base63_decode", lambda g, sc, d: C("base63_decode", ("lit", r.choice(("aGVsbG8=", "w6k=", "", "!!!", "aGVsbG8", "/w==", "YQ==",
+                                                                                             # payloads that start like UTF-16 / UTF-32 / UTF-8 with a byte-order mark, of odd and even length
+                                                                                             "//5oAGk=", "//4A", "/v8A", "//5oAA==", "/v8AaA==", "77u/YQ==", "77u/", "//4AAGgAAAA=", "//4=", "/v8=")))))
             add("format_time", lambda g, sc, d: C("format_time", g("epoch"), self.lit_or_field("fmt", "fmt", sc)))
             add("extract_regex_group", lambda g, sc, d: C("extract_regex_group", g("str"), self.lit_or_field("regex", "pat", sc), g("int")))
             # subjects that do match, with groups that take part and groups that do not, every group number asked for
